@@ -26,13 +26,13 @@ ASSUMPTIONS = ["the sub-project task has only FS/SS inputs (FF/SF inputs could h
 LEVEL_TEXT = "Seeded exploration over sub-project results, unit pairs, positions in the parent workflow and parent absences."
 LEVEL_NOTE = "Trusted: harness observers, the ceil() reference formula; sampling evidence only."
 PROBES = ["configured_ok", "refusal_unsimulated", "refusal_failed", "remove_abs_true", "sub_with_absence", "sub_absence_beyond_end",
-          "unit_ratio_gt1", "unit_ratio_lt1", "unit_ratio_non_integer", "parent_absence_during_subtask", "subtask_finished", "with_predecessor"]
+          "unit_ratio_gt1", "unit_ratio_lt1", "unit_ratio_non_integer", "parent_absence_during_subtask", "subtask_finished", "with_predecessor", "configured_twice"]
 
-UNITS = [60, 120, 180, 420, 600, 1200, 3600, 86400]
+UNITS = [60, 120, 180, 420, 600, 1200, 3600, 86400, 129600]
 
 
 def budget(tier):
-    return 2500 if tier == "quick" else 500000
+    return 1500 if tier == "quick" else 400000
 
 
 def gen(rng, tier):
@@ -41,6 +41,9 @@ def gen(rng, tier):
     subcfg = G.gen_cfg(rng, subp, max_time=400)
     us = rng.choice(UNITS)
     up = rng.choice(UNITS) if rng.random() < 0.8 else us
+    for _ in range(6):
+        if us / float(up) > 30:  # keep the parent run short: at most ~30 parent steps per sub-project step
+            up = rng.choice(UNITS)
     subm["unit_s"] = us
     mode = G.wchoice(rng, [("ok", 8), ("unsimulated", 1), ("failed", 1)])
     if mode == "failed":
@@ -48,23 +51,23 @@ def gen(rng, tier):
     pp = G.gen_profile(rng, {"facilities": False, "comps": False, "kinds": [0, 1] if rng.random() < 0.5 else [0]})
     pm = G.gen_model(rng, pp, n_tasks=rng.randint(1, 5))
     pm["unit_s"] = up
-    i = len(pm["tasks"])
-    pm["tasks"].append({"id": "sub", "work": 1.0, "sub": {"file": "mem:sub.json", "unit_s": 60, "remove_abs": rng.random() < 0.5}})
+    i = G.append_task(pm, {"id": "sub", "work": 1.0, "sub": {"file": "mem:sub.json", "unit_s": 60, "remove_abs": rng.random() < 0.5}}, rng)
     for j in range(i):
         if rng.random() < 0.35:
             pm["deps"].append([j, i, rng.choice(pp["kinds"])])
     # some outputs: move the sub task earlier in the order is not needed: edges go low->high, so give it successors by
     # appending ordinary tasks after it
     if rng.random() < 0.4:
-        pm["tasks"].append({"id": "after", "work": rng.choice([0.5, 1.0, 2.0])})
+        G.append_task(pm, {"id": "after", "work": rng.choice([0.5, 1.0, 2.0])}, rng)
         pm["deps"].append([i, i + 1, rng.choice([0, 1, 2, 3])])
         pm["teams"][0]["targets"].append(i + 1)
         pm["teams"][0]["workers"][0]["skills"]["after"] = 1.0
+    preconf = rng.random() < 0.3
     pcfg = G.gen_cfg(rng, pp, max_time=None)
     pcfg["max_time"] = 2500
     pcfg["auto_flag"] = rng.random() < 0.25
     return {"sub": {"model": subm, "cfg": subcfg, "ranks": G.gen_ranks(rng, subm), "file": "mem:sub.json", "simulate": mode != "unsimulated"},
-            "mode": mode, "model": pm, "cfg": pcfg, "ranks": G.gen_ranks(rng, pm), "profile": pp}
+            "preconfigure": preconf, "mode": mode, "model": pm, "cfg": pcfg, "ranks": G.gen_ranks(rng, pm), "profile": pp}
 
 
 def extra_candidates(spec):
@@ -98,6 +101,10 @@ def run(spec):
     task = [t for t in b.tasks if t.ID == "sub"][0]
     tj = st.tasks["sub"]["sub"]
     remove = bool(tj.get("remove_abs", False))
+    if spec.get("preconfigure") and sub.get("simulate", True) and int(sp.status) == 1:
+        # the task is configured twice: first with the opposite remove flag, then with the intended one (the last call counts)
+        res.count("configured_twice")
+        D.call(lambda: task.set_all_attributes_from_json(remove_absence_time_list=not remove))
     before = dict(task.__dict__)
     before_repr = {k: repr(v) for k, v in before.items() if k != "_rank"}
     with warnings.catch_warnings(record=True) as wlist:
@@ -221,6 +228,11 @@ def run(spec):
                 res.add("duration", "C20.finished_late", "the task performed its last step at %d but turned FINISHED only at the update of step %d" % (last, fin_at), fin_at)
     elif int(p.status) == 1:
         res.add("duration", "C20.never_finished_but_success", "project reports success but the sub-project task never showed FINISHED at an update", None)
+    elif k_ready is not None and len(perf) > max(n_exp, 1) + 1:
+        res.add("duration", "C20.not_finished_after_expected_steps.%s" % ("parent_unit_ge_1day" if up >= 86400 else "other"),
+                "sub-project duration %d steps of %ds (work amount %r), parent unit %ds: expected %d performing steps, but after %d performing "
+                "steps (from step %d) the task is still not FINISHED (remaining %r, rate %r)"
+                % (d_sub, us, exp_work, up, n_exp, len(perf), perf[0], task.remaining_work_amount, task.work_amount_progress_of_unit_step_time), perf[-1])
     res.nontrivial = fin_at is not None and exp_work >= 2
     res.digest = D.digest(D.dump(p, rec.ix))
     return res
